@@ -24,6 +24,7 @@ template<class Cfg> ModelTraits backend_traits() {
 	T.dmin          = Cfg::dmin;
 	T.dmax          = Cfg::dmax;
 	T.static_arrays = Cfg::static_arrays;
+	T.throwing_move = ET::throwing_move;
 	return T;
 }
 
